@@ -1,7 +1,7 @@
 #!/bin/sh
 # runs every seeded change against the check(s) named in its meta (first argument list) and prints a table
 cd /verif
-for pair in C01a:C07 C01a:C01 C02a:C02 C02a:C05 C03a:C03 C04a:C04 C05a:C05 C06a:C06 C07a:C07 C08a:C08 C09a:C09 C09a:C19 C10a:C10 C11a:C11 C12a:C12 C13a:C13 C14a:C14 C15a:C15 C16a:C17 C16a:C16 C17a:C17 C18a:C18 C19a:C19 C20a:C20 C01b:C01 C02b:C02 C03b:C03 C04b:C04 C05b:C05 C06b:C06 C07b:C07 C08b:C08 C09b:C09 C10b:C10 C11b:C11 C12b:C12 C13b:C13 C14b:C14 C15b:C15 C16b:C16 C17b:C17 C18b:C18 C19b:C19 C20b:C20 C20b:C10; do
+for pair in C01a:C07 C01a:C01 C02a:C02 C02a:C05 C03a:C03 C04a:C04 C05a:C05 C06a:C06 C07a:C07 C08a:C08 C09a:C09 C09a:C19 C10a:C10 C11a:C11 C12a:C12 C13a:C13 C14a:C14 C15a:C15 C16a:C17 C16a:C16 C17a:C17 C18a:C18 C19a:C19 C20a:C20 C01b:C01 C02b:C02 C03b:C03 C04b:C04 C05b:C05 C06b:C06 C07b:C07 C08b:C08 C09b:C09 C10b:C10 C11b:C11 C12b:C12 C13b:C13 C14b:C14 C15b:C15 C16b:C16 C17b:C17 C18b:C18 C19b:C19 C20b:C20 C20b:C10 C01c:C01 C02c:C02 C03c:C03 C04c:C04 C05c:C05 C06c:C06 C07c:C07 C08c:C08 C09c:C09 C10c:C10 C11c:C11 C12c:C12 C13c:C13 C14c:C14 C15c:C15 C16c:C16 C17c:C17 C18c:C18 C19c:C19 C20c:C20; do
   s=${pair%%:*}; p=${pair##*:}
   N=1 ${SEED_RUNNER:-tools/try_seed.sh} $s $p ${1:-quick} 2>&1 | tr '\n' ' ' | cut -c1-230; echo
 done
